@@ -310,6 +310,9 @@ let conc_main (path : string) =
   let hp0 = ref N0 and rc0 = ref N0 in
   let nev = ref 0 in
   let nin = ref 0 in
+  (* request discipline (the hypothesis [req_disc] of ConcBound.lock_all_own_steps): a thread issues one lock
+     request per acquisition - the model itself lets a whole-table operation repeat LOCKREQ without progress *)
+  let pending_req : (int, string * string) Hashtbl.t = Hashtbl.create 8 in
   let fail lineno msg = Printf.printf "REPLAY-FAIL line %d: %s\n" lineno msg; Printf.printf "REPLAYED %d events\n" !nev; exit 0 in
   let lineno = ref 0 in
   let stepl (s : gstate) (t : int) (lbs : label list) : gstate option =
@@ -341,6 +344,15 @@ let conc_main (path : string) =
                   | Some s' -> st := Some s'; incr nin
                   | None -> fail !lineno (Printf.sprintf "thread %d returns to the caller in state %s (holding locks or mid-protocol)" t (tstate_name cur))))
        | _ ->
+         (match rest with
+          | ["LOCKREQ"; a; l] ->
+            if Hashtbl.mem pending_req t then fail !lineno (Printf.sprintf "thread %d requests lock (%s,%s) while its request for another acquisition is still pending" t a l);
+            Hashtbl.replace pending_req t (a, l)
+          | ["LOCKED"; a; l] ->
+            (match Hashtbl.find_opt pending_req t with
+             | Some (a', l') when a' = a && l' = l -> Hashtbl.remove pending_req t
+             | _ -> fail !lineno (Printf.sprintf "thread %d acquires lock (%s,%s) it did not request" t a l))
+          | _ -> ());
          let lb = (match rest with
            | ["LD_RC"; v] -> LD_RC (nn v) | ["LD_HP"; v] -> LD_HP (nn v) | ["CURLOCKS"; a] -> CURLOCKS (nat a)
            | ["LOCKREQ"; a; l] -> LOCKREQ (nat a, nat l) | ["LOCKED"; a; l] -> LOCKED (nat a, nat l)
